@@ -95,7 +95,7 @@ theorem enum_ok (E : Ext) (hU : E.U.AsciiCorrect) (cfg : Cfg) (cs : List Str) (t
   refine enum_clauses E hU .go (cfg, st) targetOs c r attrs ident gens vs e _ _ _ hparse
     (by simp [C01.enumKeys, ha]) ?_
   intro hsc hk
-  exact C02.C02_backend .go E _ _ hsc hk cfg cs st d st' rfl hd
+  exact C02.C02_backend .go E hU _ _ hsc hk cfg cs st d st' rfl hd
 
 theorem block_of (U : UnicodeOps) (cfg : Cfg) (cs : List Str) {items emitted : List RustItem} {blocks : List Str}
     {st0 stN : Imports} (hperm : items.Perm emitted) (ht : Threaded (writeItem U cfg cs) items st0 blocks stN)
